@@ -48,8 +48,9 @@ class Seg:
 
 
 class Summ:
-    def __init__(self, fn: ast.FunctionDef):
+    def __init__(self, fn: ast.FunctionDef, is_format_helper=None):
         self.fn = fn
+        self.is_format_helper = is_format_helper or (lambda call: False)
         ps = [a.arg for a in fn.args.args]
         if len(ps) != 2:
             raise Incomplete("generator does not take (storage list, operand list)")
@@ -221,6 +222,22 @@ class Summ:
                     if isinstance(val, ast.Name):
                         raise
                     raise
+            # formatting through a helper: x = _fmt(einsum_list_list) / a, b, c = _fmt(einsum_list_list)
+            if isinstance(val, ast.Call) and len(val.args) == 1 and isinstance(val.args[0], ast.Name) and self.is_format_helper(val):
+                base = self.derived.get(val.args[0].id, val.args[0].id)
+                if base in self.lists:
+                    if isinstance(tgt, ast.Name):
+                        self.derived[tgt.id] = base
+                        return
+                    if isinstance(tgt, (ast.Tuple, ast.List)) and all(isinstance(e, ast.Name) for e in tgt.elts) and len(tgt.elts) == len(self.lists[base]):
+                        for k, e in enumerate(tgt.elts):
+                            self.env[e.id] = ("fmtidx", base, k)
+                        return
+            if isinstance(tgt, (ast.Tuple, ast.List)) and isinstance(val, ast.Name) and self.derived.get(val.id, val.id) in self.lists \
+                    and all(isinstance(e, ast.Name) for e in tgt.elts) and len(tgt.elts) == len(self.lists[self.derived.get(val.id, val.id)]):
+                for k, e in enumerate(tgt.elts):
+                    self.env[e.id] = ("fmtidx", self.derived.get(val.id, val.id), k)
+                return
             # formatting tail: names derived element-wise from the list of lists
             if isinstance(tgt, ast.Name) and isinstance(val, ast.ListComp) and len(val.generators) == 1 and isinstance(val.generators[0].iter, ast.Name):
                 base = val.generators[0].iter.id
@@ -301,6 +318,10 @@ class Summ:
             for part in v.values:
                 if isinstance(part, ast.Constant):
                     txt += str(part.value)
+                elif isinstance(part, ast.FormattedValue) and isinstance(part.value, ast.Name) and isinstance(self.env.get(part.value.id), tuple) and self.env[part.value.id][0] == "fmtidx":
+                    _, base, k = self.env[part.value.id]
+                    order.append((base, k))
+                    txt += "{}"
                 elif isinstance(part, ast.FormattedValue) and isinstance(part.value, ast.Subscript) and isinstance(part.value.value, ast.Name):
                     nm = part.value.value.id
                     base = self.derived.get(nm, nm)
@@ -449,8 +470,16 @@ def _drops_amplitude_index(term) -> bool:
     return False
 
 
-def summarise(fi: FuncInfo):
-    s = Summ(fi.node)
+def summarise(fi: FuncInfo, repo: Optional[Repo] = None):
+    def is_fmt(call: ast.Call) -> bool:
+        if repo is None or not isinstance(call.func, ast.Name):
+            return False
+        h = repo.funcs.get(f"{fi.module.name.split('.')[-1]}:{call.func.id}")
+        if h is None:
+            return False
+        t = ast.unparse(h.orig or h.node)
+        return "chr(" in t and "next(" not in t and len(h.params) == 1
+    s = Summ(fi.orig or fi.node, is_fmt)
     operands, output = s.run()
     return canonical(operands, output)
 
@@ -463,7 +492,7 @@ def escgen(repo: Repo) -> List[Ob]:
         fi = repo.func(f"einsum_constructor:{name}")
         props = ESC_PROPS[name]
         try:
-            got = summarise(fi)
+            got = summarise(fi, repo)
         except Incomplete as ex:
             obs.append(skip("ESCGEN", fi, "summary", props, fi.node, f"generator uses a construct outside the summariser's vocabulary ({ex})"))
             continue
